@@ -55,21 +55,28 @@ def replay_bounds(model, lm=2, lt=2):
     return raised != should, {"what": f"Bounds(M={M}, tau={tau}): raised={raised}, malformed={should}", "inputs": m}
 
 
-def replay_regularize(model, two=True):
+def replay_regularize(model, two=True, inf_hi=False):
     from bluebonnet.forecast import Bounds
     m = model_floats(model, ["M0", "M1", "tau0", "tau1", "g0", "g1"], default=dict(M0=0.0, M1=10.0, tau0=1.0, tau1=5.0, g0=20.0, g1=0.0))
+    if inf_hi:
+        m["M1"] = m["tau1"] = math.inf
     b = Bounds(M=(m["M0"], m["M1"]), tau=(m["tau0"], m["tau1"]))
     g = b.regularize_initial_guess([m["g0"], m["g1"]] if two else [m["g0"]])
-    bad = not (m["M0"] <= g[0] <= m["M1"]) or (two and not (m["tau0"] <= g[1] <= m["tau1"]))
+    bad = not (m["M0"] <= g[0] <= m["M1"]) or (two and not (m["tau0"] <= g[1] <= m["tau1"])) or not all(math.isfinite(x) for x in g)
     return bad, {"what": f"regularize_initial_guess -> {g} for bounds M=({m['M0']}, {m['M1']}), tau=({m['tau0']}, {m['tau1']})", "inputs": m}
 
 
-def replay_fit(model, with_tau=False):
+def replay_fit(model, with_tau=False, inf_hi=False):
     import numpy as np
     from bluebonnet.forecast import Bounds, ForecasterOnePhase
     m = model_floats(model, ["M0", "M1", "tau0", "tau1", "tau_in"], default=dict(M0=10.0, M1=5000.0, tau0=20.0, tau1=900.0, tau_in=250.0))
     t = np.linspace(1, 600, 60)
     cum = 1234.0 * _rf_real(t / 321.0)
+    if inf_hi:
+        # raised lower limits with unbounded upper limits: the automatic guess (2 x last cumulative, 5 x last time) lies below them
+        m["M1"] = m["tau1"] = math.inf
+        m["M0"] = max(m["M0"], 2.0 * float(cum[-1]) + 100.0)
+        m["tau0"] = max(m["tau0"], 5.0 * float(t[-1]) + 100.0)
     f = ForecasterOnePhase(_rf_real, Bounds(M=(m["M0"], m["M1"]), tau=(m["tau0"], m["tau1"])))
     try:
         f.fit(t, cum, tau=m["tau_in"] if with_tau else None)
@@ -141,24 +148,32 @@ def job_bounds(job):
                     job.prove(f"regularize[two={two},inf={inf_hi}]/raises[path{k}]", pr.pc, bound="any guess", replay=(replay_regularize, {"two": two}))
                     continue
                 g = pr.value
+                if any(isinstance(x, float) and (math.isinf(x) or math.isnan(x)) for x in g):
+                    # a non-finite starting point is inside no interval a fit can start from (curve_fit refuses it)
+                    job.prove(f"regularize[two={two},inf={inf_hi}]/guess is finite[path{k}]: returned {g!r}", pr.pc, bound="any guess, half-infinite bounds",
+                              replay=(replay_regularize, {"two": two, "inf_hi": inf_hi}))
+                    continue
                 bad = [T.b_lt(P(g[0]), P(M0))] + ([] if inf_hi else [T.b_lt(P(M1), P(g[0]))])
                 if two:
                     bad += [T.b_lt(P(g[1]), P(tau0))] + ([] if inf_hi else [T.b_lt(P(tau1), P(g[1]))])
                 job.prove(f"regularize[two={two},inf={inf_hi}]/guess moved inside the bounds[path{k}]", pr.pc + [T.b_or(*bad)], bound="any guess, any finite bounds",
-                          replay=(replay_regularize, {"two": two}))
+                          replay=(replay_regularize, {"two": two, "inf_hi": inf_hi}))
                 if len(g) != (2 if two else 1):
                     job.errors.append("regularize changed the length of the guess")
 
 
-def job_fit(job, n):
+def job_fit(job, n, inf_hi=False):
     mod = _load()
     job.encoded(mod, "ForecasterOnePhase.fit", "Bounds.fit_bounds", "Bounds.regularize_initial_guess")
     job.stub("scipy.optimize.curve_fit: contract stub (ValueError if p0 is outside the bounds handed over, else popt inside them; "
              "model closure, p0 and bounds recorded)")
     rf = _uf("rf", pos=False)
     vs, dom = box(None, M0=(0, None), tau0=("1e-10", None))
-    M1, tau1 = fresh("M1"), fresh("tau1")
-    dom += [T.b_lt(P(vs["M0"]), P(M1)), T.b_lt(P(vs["tau0"]), P(tau1))]
+    if inf_hi:
+        M1 = tau1 = math.inf            # the library's default bounds are of this shape
+    else:
+        M1, tau1 = fresh("M1"), fresh("tau1")
+        dom += [T.b_lt(P(vs["M0"]), P(M1)), T.b_lt(P(vs["tau0"]), P(tau1))]
     ts = [fresh(f"t{k}", pos=True) for k in range(n)]
     cs = [fresh(f"q{k}") for k in range(n)]
     tau_in = fresh("tau_in", pos=True)
@@ -169,23 +184,27 @@ def job_fit(job, n):
             f = mod.ForecasterOnePhase(rf, mod.Bounds(M=(vs["M0"], M1), tau=(vs["tau0"], tau1)))
             f.fit(SymArray(ts, "f8"), SymArray(cs, "f8"), tau=tau_in if with_tau else None)
             return f, list(SS.OptCalls.curve_fit)
-        rp = (replay_fit, {"with_tau": with_tau})
-        tag = "tau supplied" if with_tau else "tau fitted"
+        rp = (replay_fit, {"with_tau": with_tau, "inf_hi": inf_hi})
+        tag = ("tau supplied" if with_tau else "tau fitted") + (", half-infinite bounds" if inf_hi else "")
         for k, pr in enumerate(paths(job, run, dom, catch=(ValueError,), max_paths=64)):
             if pr.exc is not None:
                 job.prove(f"fit[{tag}]/raises (initial guess outside the bounds handed to curve_fit?)[path{k}]", pr.pc, bound=f"{n} samples", replay=rp, note=str(pr.exc)[:60])
                 continue
             f, calls = pr.value
             c = calls[0]
-            lo_ok = [T.b_eq(P(c["lo"][0]), P(vs["M0"])), T.b_eq(P(c["hi"][0]), P(M1))]
+            def same(a, b):
+                if isinstance(a, float) or isinstance(b, float):
+                    return T.b_const(isinstance(a, float) and isinstance(b, float) and a == b)
+                return T.b_eq(P(a), P(b))
+            lo_ok = [same(c["lo"][0], vs["M0"]), same(c["hi"][0], M1)]
             if not with_tau:
-                lo_ok += [T.b_eq(P(c["lo"][1]), P(vs["tau0"])), T.b_eq(P(c["hi"][1]), P(tau1))]
+                lo_ok += [same(c["lo"][1], vs["tau0"]), same(c["hi"][1], tau1)]
             job.prove(f"fit[{tag}]/bounds handed to curve_fit are the configured ones in its order[path{k}]", pr.pc + [T.b_not(T.b_and(*lo_ok))], bound=f"{n} samples", replay=rp)
-            inside = [T.b_lt(P(f.M_), P(vs["M0"])), T.b_lt(P(M1), P(f.M_))]
+            inside = [T.b_lt(P(f.M_), P(vs["M0"]))] + ([] if inf_hi else [T.b_lt(P(M1), P(f.M_))])
             if with_tau:
                 inside.append(T.b_not(T.b_eq0(P(f.tau_ - tau_in))))
             else:
-                inside += [T.b_lt(P(f.tau_), P(vs["tau0"])), T.b_lt(P(tau1), P(f.tau_))]
+                inside += [T.b_lt(P(f.tau_), P(vs["tau0"]))] + ([] if inf_hi else [T.b_lt(P(tau1), P(f.tau_))])
             job.prove(f"fit[{tag}]/fitted M_, tau_ inside the configured bounds" + (" and supplied tau unchanged" if with_tau else "") + f"[path{k}]",
                       pr.pc + [T.b_or(*inside)], bound=f"{n} samples", replay=rp)
             # the model closure handed to curve_fit
@@ -199,7 +218,8 @@ def job_fit(job, n):
 
 
 def jobs(tier):
-    out = [("scaling-2", lambda j: job_scaling(j, 2)), ("bounds", job_bounds), ("fit-2", lambda j: job_fit(j, 2))]
+    out = [("scaling-2", lambda j: job_scaling(j, 2)), ("bounds", job_bounds), ("fit-2", lambda j: job_fit(j, 2)),
+           ("fit-2-halfinf", lambda j: job_fit(j, 2, inf_hi=True))]
     if tier != "quick":
         out += [("scaling-3", lambda j: job_scaling(j, 3)), ("fit-3", lambda j: job_fit(j, 3))]
     return out
